@@ -397,19 +397,6 @@ Proof.
   destruct r as [| [s' e'] r']; [exact I |]. simpl in H4. lia.
 Qed.
 
-(** Go's [AckFrame.validateAckRanges], transliterated *)
-Fixpoint validate_rest (prevSmallest : Z) (l : list interval) : bool :=
-  match l with
-  | [] => true
-  | (s, e) :: r => negb (prevSmallest <=? s) && negb (prevSmallest <=? e + 1) && validate_rest s r
-  end.
-
-Definition validateAckRanges (l : list interval) : bool :=
-  match l with
-  | [] => false
-  | (s, e) :: r => forallb (fun x => negb (fst x >? snd x)) l && validate_rest s r
-  end.
-
 Lemma ack_ranges_ok_each : forall l, ack_ranges_ok l -> forallb (fun x => negb (fst x >? snd x)) l = true.
 Proof.
   induction l as [| [s' e'] r' IH]; intros H; [reflexivity |].
